@@ -11,7 +11,7 @@ export GOFLAGS=-mod=mod GOPROXY=off GOSUMDB=off GOTOOLCHAIN=local
 ROOT="$(cd "$(dirname "$0")/.." && pwd)"
 WT=/tmp/seedverify-$$
 PATCH="$OUT/patch.diff"
-DEMO_REL="$(cat "$OUT/demo_path.txt" | tr -d '[:space:]')"
+DEMO_REL="$(head -1 "$OUT/demo_path.txt" | tr -d "[:space:]")"
 DEMO_FILE="$OUT/$(basename "$DEMO_REL")"
 [ -s "$PATCH" ] || { echo "no patch"; exit 2; }
 git -C /repo worktree add --detach "$WT" HEAD -q || exit 2
